@@ -557,6 +557,17 @@ mod huffman {
                 }
             }
             levels.sort_by(|x, y| x.0.cmp(&y.0));
+            if let [(0, sym)] = levels[..] {
+                // A lone symbol sits at the root of the tree. It still needs one bit per
+                // occurrence, otherwise items have no extent and cannot be decoded. Both
+                // values of that bit decode to the symbol to keep the decoding map total.
+                let mut encode = BTreeMap::new();
+                let mut decode = Decode::map();
+                encode.insert(sym.clone(), (1, 0));
+                Self::insert_decode(&mut decode, sym, 1, 0);
+                Self::insert_decode(&mut decode, sym, 1, 1 << 63);
+                return Huffman { encode, decode };
+            }
             let mut code: u64 = 0;
             let mut prev_level = 0;
             let mut encode = BTreeMap::new();
